@@ -40,3 +40,6 @@ def run(ck):
     pipeline.handler_call_sites(ck, "C04.R1", roles)
     sizes.resize_rules(ck, {"restore_raw": "C10.R1"}) # resize hands the exact re-scaled codes to set_val (inaccuracy is seen)
     routes.numpy_dispatch_transparent(ck, "C15.R5")  # results of the numpy route keep the flags of the result object
+    routes.who_writes_codes(ck, "C02.R1")               # "every write": no route stores codes without the notifications of set_val
+    conv.scaled_value_type(ck, "C17.R8")
+    fresh.no_hidden_state(ck, "C20.R8")                  # results depend on the documented state only (no caches / memos)
